@@ -314,6 +314,16 @@ const BATCHER_SRC: &str = r#"
 :bail RETURNDATASIZE PUSH 0 PUSH 0 RETURNDATACOPY RETURNDATASIZE PUSH 0 REVERT
 "#;
 
+/// Returns NUMBER || BLOCKHASH(NUMBER-1): block-dependent, but none of timestamp/randomness/gas/txid.
+pub fn numhash_runtime() -> Vec<u8> {
+    assemble("NUMBER PUSH 0 MSTORE PUSH 1 NUMBER SUB BLOCKHASH PUSH 32 MSTORE PUSH 64 PUSH 0 RETURN")
+}
+
+/// Init code whose installed runtime is the 32-byte block number it was deployed in.
+pub fn number_stamped_init() -> Vec<u8> {
+    assemble("NUMBER PUSH 0 MSTORE PUSH 32 PUSH 0 RETURN")
+}
+
 pub fn tool_runtime() -> &'static Vec<u8> {
     static C: OnceLock<Vec<u8>> = OnceLock::new();
     C.get_or_init(|| assemble(TOOL_SRC))
